@@ -19,6 +19,28 @@ Proof. intros []; vm_cast_no_check (eq_refl true). Qed.
 Lemma fixed_read_3_checked : forall a, let d := sys_n (fixed_skel FixAll) Reader 3 a in scheck d (fixed_n_inv d) = true.
 Proof. intros []; vm_cast_no_check (eq_refl true). Qed.
 
+(* all2 = all + re-validation of the stored deadline when the timer fires: the STRONG reading of
+   "never before the deadline" (boundary B11) holds, also for a caller that kept a stale timer *)
+Definition strong_tm_inv (d : sysdef) : state -> bool := inv_and [tm_inv d; inv_no_early_strong d].
+Definition strong_one_inv (c : caller) (d : sysdef) : state -> bool :=
+  inv_and [fixed_one_inv c d; inv_no_early_strong d].
+Definition strong_extend_inv (d : sysdef) : state -> bool :=
+  inv_and [inv_ok; inv_no_early_strong d; inv_expiry_wakes d].
+Lemma fixed2_read_tm_checked : forall a, let d := sys_tm (fixed_skel FixAll2) Reader a in scheck d (strong_tm_inv d) = true.
+Proof. intros []; vm_cast_no_check (eq_refl true). Qed.
+Lemma fixed2_write_tm_checked : forall a, let d := sys_tm (fixed_skel FixAll2) Writer a in scheck d (strong_tm_inv d) = true.
+Proof. intros []; vm_cast_no_check (eq_refl true). Qed.
+Lemma fixed2_read_one_checked : forall a, let d := sys_1 (fixed_skel FixAll2) Reader a in scheck d (strong_one_inv Reader d) = true.
+Proof. intros []; vm_cast_no_check (eq_refl true). Qed.
+Lemma fixed2_write_one_checked : forall a, let d := sys_1 (fixed_skel FixAll2) Writer a in scheck d (strong_one_inv Writer d) = true.
+Proof. intros []; vm_cast_no_check (eq_refl true). Qed.
+Lemma fixed2_read_extend_checked : forall a, let d := sys_extend_n (fixed_skel FixAll2) Reader 2 a in scheck d (strong_extend_inv d) = true.
+Proof. intros []; vm_cast_no_check (eq_refl true). Qed.
+Lemma fixed2_write_extend_checked : forall a, let d := sys_extend_n (fixed_skel FixAll2) Writer 2 a in scheck d (strong_extend_inv d) = true.
+Proof. intros []; vm_cast_no_check (eq_refl true). Qed.
+Lemma fixed2_read_2_checked : forall a, let d := sys_n (fixed_skel FixAll2) Reader 2 a in scheck d (fixed_n_inv d) = true.
+Proof. intros []; vm_cast_no_check (eq_refl true). Qed.
+
 (* each repair is needed: f11 alone leaves F12, f12 alone leaves F11, the PeekSize-only form of
    the F4 repair leaves the short-buffer variant *)
 Lemma f11_alone_leaves_f12 :
